@@ -49,7 +49,31 @@ pub fn alphabet() -> Vec<Build> {
         Build::File("file-inc-dir-A", "dirA/c17mainA.asm"),
         Build::File("file-inc-dir-B", "dirB/c17mainB.asm"),
         Build::Str("label-and-pc", "lbl: nop\nrjmp lbl\n.dw pc\n.set s = 5\n.dw s\n"),
+        // symbols defined through each other: a cycle (fails deep inside the evaluation), a
+        // failure one level down, and a chain that only builds if nothing of those is left over
+        Build::Str("equ-cyclic", ".equ ca = cb + 1\n.equ cb = ca + 1\nldi r16, ca\n"),
+        Build::Str("equ-nested-undefined", ".equ na = nb + 1\nldi r16, na\n"),
+        Build::Str("equ-chain-expr", ".equ base = 2\n.equ top = base + 1\n.equ top2 = top * 2 + base\nldi r16, top2\n.dw top\n"),
+        // each of these takes more than half of the ATtiny13's flash
+        Build::Str("tiny13-fill-A", fill_a()),
+        Build::Str("tiny13-fill-B", fill_b()),
+        // a macro called recursively (fails at the nesting limit) and nested macros that build
+        Build::Str("macro-recursive", ".macro rec\nnop\nrec\n.endm\nrec\n"),
+        Build::Str("macro-nested-3", ".macro n1\nldi r24, @0\n.endm\n.macro n2\nn1 @0\nn1 @0+1\n.endm\n.macro n3\nn2 @0\nn2 @0+2\n.endm\nn3 1\n"),
+        // nested conditions left open (fails) and a well-formed nest
+        Build::Str("if-unclosed", ".if 1\n.if 1\nnop\n"),
+        Build::Str("if-nested-ok", ".if 1\n.if 0\nnop\n.else\nldi r25, 1\n.endif\n.endif\n"),
     ]
+}
+
+fn fill_a() -> &'static str {
+    static S: std::sync::OnceLock<String> = std::sync::OnceLock::new();
+    S.get_or_init(|| format!(".device ATtiny13\n{}", "inc r1\n".repeat(280))).as_str()
+}
+
+fn fill_b() -> &'static str {
+    static S: std::sync::OnceLock<String> = std::sync::OnceLock::new();
+    S.get_or_init(|| format!(".device ATtiny13\n.macro blk\n{}.endm\n{}", "dec r2\n".repeat(40), "blk\n".repeat(7))).as_str()
 }
 
 fn write_files(dir: &Path) {
@@ -151,9 +175,30 @@ pub fn run(tier: Tier) -> i32 {
             compare(*b, &o, "history-same-thread", &|| json!({"sequence": s.iter().map(|x| alpha[*x].name()).collect::<Vec<_>>(), "position": pos}));
         }
     });
-    // 2. the same sequences (length <= 3) with each build on its own thread, sequentially joined
+    // 1b. accumulation: one build repeated 70 times, then each other build once (what a build
+    //     leaves behind may only show after many of them)
+    let reps_acc = 70usize;
+    let mut n_acc = 0usize;
+    for f in 0..n {
+        for g in 0..n {
+            if matches!(alpha[f], Build::File(..)) && matches!(alpha[g], Build::File(..)) && tier == Tier::Quick && f != g {
+                continue;
+            }
+            n_acc += 1;
+            for r in 0..reps_acc {
+                let o = run_build(&alpha[f], &dir);
+                if r == 0 || r == reps_acc - 1 {
+                    compare(f, &o, "history-accumulation", &|| json!({"repeated": alpha[f].name(), "times": r + 1, "then": alpha[g].name()}));
+                }
+            }
+            let o = run_build(&alpha[g], &dir);
+            compare(g, &o, "history-accumulation", &|| json!({"repeated": alpha[f].name(), "times": reps_acc, "then": alpha[g].name()}));
+        }
+    }
+    // 2. the same sequences (length <= 2, thorough 3) with each build on its own thread, sequentially joined
     let n_thread_hist = AtomicU64::new(0);
-    seqs.iter().filter(|s| s.len() <= 3).for_each(|s| {
+    let k_threads = if tier.thorough() { 3 } else { 2 };
+    seqs.iter().filter(|s| s.len() <= k_threads).for_each(|s| {
         n_thread_hist.fetch_add(1, Ordering::Relaxed);
         for (pos, b) in s.iter().enumerate() {
             let bb = alpha[*b].clone();
@@ -176,6 +221,8 @@ pub fn run(tier: Tier) -> i32 {
     // 4. schedules: controlled interleavings of concurrent builds at the hook points
     let idx = |name: &str| alpha.iter().position(|b| b.name() == name).unwrap_or_else(|| machinery_fail(&format!("no build {}", name)));
     let mut configs: Vec<Vec<Vec<usize>>> = vec![];
+    // configurations explored at a coarser set of points (index → granularity, bound)
+    let mut special: BTreeMap<usize, (sched::Gran, usize)> = BTreeMap::new();
     let pairs = [
         ("equ-val-1", "equ-val-2"), ("equ-val-1", "use-val-undefined"), ("equ-val-2", "use-val-undefined"), ("macro-m-A", "macro-m-B"),
         ("macro-m-A", "call-m-undefined"), ("macro-m-B", "call-m-undefined"), ("device-tiny20-lds", "no-device-lds"), ("define-F-ifdef", "ifdef-F-alone"),
@@ -191,6 +238,17 @@ pub fn run(tier: Tier) -> i32 {
     for (a1, a2, b) in [("equ-val-1", "use-val-undefined", "equ-val-2"), ("device-tiny20-lds", "no-device-lds", "no-device-lds"), ("macro-m-A", "call-m-undefined", "macro-m-B"), ("define-F-ifdef", "ifdef-F-alone", "ifdef-F-alone")] {
         configs.push(vec![vec![idx(a1), idx(a2)], vec![idx(b)]]);
     }
+    // 64 levels of expansion are some 300 points: preemption bound 1 (2 in the thorough tier)
+    special.insert(configs.len(), (sched::Gran::Fine, 1));
+    configs.push(vec![vec![idx("macro-recursive")], vec![idx("macro-nested-3")]]);
+    for (a, b) in [("equ-cyclic", "equ-chain-expr"), ("equ-nested-undefined", "equ-chain-expr"), ("if-unclosed", "if-nested-ok"), ("equ-chain-expr", "equ-chain-expr")] {
+        configs.push(vec![vec![idx(a)], vec![idx(b)]]);
+    }
+    // two builds that each need more than half of the device: points at every item of pass 0
+    for (a, b) in [("tiny13-fill-A", "tiny13-fill-B"), ("tiny13-fill-A", "tiny13-fill-A"), ("tiny13-fill-B", "macro-recursive")] {
+        special.insert(configs.len(), (sched::Gran::Tags(&["pass0.item"]), 1));
+        configs.push(vec![vec![idx(a)], vec![idx(b)]]);
+    }
     if tier.thorough() {
         for (a, b, c) in [("equ-val-1", "equ-val-2", "use-val-undefined"), ("macro-m-A", "macro-m-B", "call-m-undefined"), ("device-tiny20-lds", "no-device-lds", "message-set-segments")] {
             configs.push(vec![vec![idx(a)], vec![idx(b)], vec![idx(c)]]);
@@ -203,9 +261,12 @@ pub fn run(tier: Tier) -> i32 {
     let mut by_pre_total: Vec<usize> = vec![];
     let mut per_config: Vec<Value> = vec![];
     let mut replay_checked = 0usize;
-    for cfg in configs.iter() {
+    for (cfg_i, cfg) in configs.iter().enumerate() {
         let nthreads = cfg.len();
-        let bound = if tier.thorough() { if nthreads == 3 { 2 } else { 3 } } else { 2 };
+        let (gran, bound) = match special.get(&cfg_i) {
+            Some((g, b)) => (*g, if tier.thorough() { *b + 1 } else { *b }),
+            None => (sched::Gran::Fine, if tier.thorough() { if nthreads == 3 { 2 } else { 3 } } else { 2 }),
+        };
         let make = || -> Vec<Box<dyn FnOnce() -> Vec<Outcome> + Send>> {
             cfg.iter()
                 .map(|builds| {
@@ -217,7 +278,7 @@ pub fn run(tier: Tier) -> i32 {
         };
         // determinism of the harness itself: replay one recorded schedule twice, identical points
         {
-            let (_, r0) = sched::run_schedule(make(), &[], true);
+            let (_, r0) = sched::run_schedule(make(), &[], gran);
             let mid: Vec<usize> = {
                 let mut c = r0.choices();
                 let cut = c.len() / 2;
@@ -229,8 +290,8 @@ pub fn run(tier: Tier) -> i32 {
                 }
                 c
             };
-            let (_, r1) = sched::run_schedule(make(), &mid, true);
-            let (_, r2) = sched::run_schedule(make(), &mid, true);
+            let (_, r1) = sched::run_schedule(make(), &mid, gran);
+            let (_, r2) = sched::run_schedule(make(), &mid, gran);
             if r1.points != r2.points || r1.diverged || r2.diverged {
                 machinery_fail("replaying one schedule twice gave different point sequences: the scheduler does not own every choice");
             }
@@ -241,11 +302,11 @@ pub fn run(tier: Tier) -> i32 {
             for (ti, outs) in res.iter().enumerate() {
                 for (pos, o) in outs.iter().enumerate() {
                     let which = cfg[ti][pos];
-                    compare(which, o, "schedule", &|| json!({"threads": cfg_names, "tags": "fine", "choices": rec.choices(), "points": rec.points.iter().map(|p| json!([p.thread, p.tag])).collect::<Vec<_>>(), "preemptions": rec.preemptions()}));
+                    compare(which, o, "schedule", &|| json!({"threads": cfg_names, "tags": gran.name(), "choices": rec.choices(), "points": rec.points.iter().map(|p| json!([p.thread, p.tag])).collect::<Vec<_>>(), "preemptions": rec.preemptions()}));
                 }
             }
         };
-        let ex = sched::explore(&make, bound, true, &mut check).unwrap_or_else(|e| machinery_fail(&e));
+        let ex = sched::explore(&make, bound, gran, &mut check).unwrap_or_else(|e| machinery_fail(&e));
         total_schedules += ex.schedules;
         total_interleavings += ex.distinct_interleavings;
         max_points = max_points.max(ex.max_points);
@@ -255,7 +316,7 @@ pub fn run(tier: Tier) -> i32 {
         for (i, c) in ex.by_preemptions.iter().enumerate() {
             by_pre_total[i] += c;
         }
-        per_config.push(json!({"threads": cfg_names, "preemption_bound_completed": bound, "schedules": ex.schedules, "distinct_interleavings": ex.distinct_interleavings, "points_per_execution_max": ex.max_points}));
+        per_config.push(json!({"threads": cfg_names, "scheduling_points": gran.name(), "preemption_bound_completed": bound, "schedules": ex.schedules, "distinct_interleavings": ex.distinct_interleavings, "points_per_execution_max": ex.max_points}));
     }
     sut::set_hook(None);
     // 5. free-running (uncontrolled) pass of the same thread bodies: a cooperative scheduler's
@@ -302,6 +363,8 @@ pub fn run(tier: Tier) -> i32 {
         "traces_validated_against_impl": n_hist as u64 + n_thread_hist.load(Ordering::Relaxed),
         "histories_same_thread": n_hist,
         "histories_thread_per_build": n_thread_hist.load(Ordering::Relaxed),
+        "histories_accumulation": n_acc,
+        "accumulation_repetitions": reps_acc,
         "history_bound": k,
         "alphabet": alpha.iter().map(|b| b.name()).collect::<Vec<_>>(),
         "schedules_explored": total_schedules,
@@ -358,7 +421,8 @@ pub fn replay(v: &Value) -> i32 {
                 Box::new(move || builds.iter().map(|b| run_build(b, &d)).collect::<Vec<Outcome>>()) as Box<dyn FnOnce() -> Vec<Outcome> + Send>
             })
             .collect();
-        let (res, rec) = sched::run_schedule(bodies, &choices, true);
+        let gran = sched::Gran::from_name(ctx["tags"].as_str().unwrap_or("fine"));
+        let (res, rec) = sched::run_schedule(bodies, &choices, gran);
         sut::set_hook(None);
         if rec.diverged {
             println!("DIVERGENCE while replaying the recorded choices (the tree changed the sequence of scheduling points)");
@@ -377,6 +441,17 @@ pub fn replay(v: &Value) -> i32 {
                 cmp(i, &o);
             }
         }
+    } else if let (Some(f), Some(g)) = (ctx["repeated"].as_str().and_then(|n| idx(n)), ctx["then"].as_str().and_then(|n| idx(n))) {
+        let times = ctx["times"].as_u64().unwrap_or(70);
+        println!("replaying {} x {}, then {}", times, alpha[f].name(), alpha[g].name());
+        for r in 0..times {
+            let o = run_build(&alpha[f], &dir);
+            if r == 0 || r + 1 == times {
+                cmp(f, &o);
+            }
+        }
+        let o = run_build(&alpha[g], &dir);
+        cmp(g, &o);
     } else if let Some(b) = v["build"].as_str().and_then(|n| idx(n)) {
         let o = run_build(&alpha[b], &dir);
         cmp(b, &o);
